@@ -28,7 +28,9 @@ import random
 
 INTS = ["int", "int8", "int16", "int32", "int64", "uint", "uint8", "uint16", "uint32", "uint64"]
 BITS = {"int": 64, "int8": 8, "int16": 16, "int32": 32, "int64": 64,
-        "uint": 64, "uint8": 8, "uint16": 16, "uint32": 32, "uint64": 64}
+        "uint": 64, "uint8": 8, "uint16": 16, "uint32": 32, "uint64": 64,
+        # "T": an integer type parameter inside a generic filler body (gen form 11); conservative width, never picked as a kind
+        "T": 8}
 
 
 def signed(t):
